@@ -1,3 +1,112 @@
 package main
 
-func runAbstractStep(st pstep, seed int64) { fatal("prog: unknown step", st.Op) }
+import (
+	"fmt"
+	"strings"
+
+	"golang.org/x/text/unicode/norm"
+)
+
+// Concretisation of abstract program steps (Drive_History.tla): deterministic
+// in (seed, class, language, variant), so the same abstract argument is the
+// same concrete argument in every history and process.  Every event carries
+// "argid" naming the abstract argument; Trace.tla keeps the first result per
+// argid and requires every later call with equal arguments to return the same.
+
+func listLang(lang int64) int {
+	if lang >= 0 && lang <= 9 {
+		return int(lang)
+	}
+	return 2
+}
+
+func poolEntropy(seed int64, cls string, v int) []byte {
+	size := map[string]int{"e16": 16, "e20": 20, "e24": 24, "e28": 28, "e32": 32, "e16z": 16, "bad17": 17, "bad0": 0, "bad33": 33}[cls]
+	b := newRng(seed, fmt.Sprintf("pool/ent/%s/%d", cls, v)).bytes(size)
+	if cls == "e16z" {
+		b[0], b[1] = 0, 0
+	}
+	return b
+}
+
+func poolSentence(seed int64, cls string, lang int64, v int) string {
+	l := listLang(lang)
+	r := newRng(seed, fmt.Sprintf("pool/sent/%s/%d/%d", cls, lang, v))
+	idx := indicesOf(r.bytes(sizes[(v+int(r.intn(5)))%5]))
+	switch cls {
+	case "valid":
+		return sentence(idx, l, " ")
+	case "badsum":
+		idx[len(idx)-1] = (idx[len(idx)-1] + 1 + r.intn(5)) % 2048
+		return sentence(idx, l, " ")
+	case "unknown":
+		ws := strings.Split(sentence(idx, l, " "), " ")
+		ws[r.intn(len(ws))] = "zzzz"
+		return strings.Join(ws, " ")
+	case "alien":
+		return sentence(idx, (l+1+r.intn(9))%10, " ")
+	case "nfc":
+		return norm.NFC.String(sentence(idx, l, " "))
+	case "sep3000":
+		return sentence(idx, l, "　")
+	case "fullwidth":
+		return fullwidth(norm.NFC.String(sentence(idx, l, " ")))
+	case "short":
+		return sentence(idx[:11], l, " ")
+	case "long":
+		long := append(append([]int(nil), idx...), idx...)
+		long = append(long, idx...)
+		return sentence(long[:25], l, " ")
+	case "empty":
+		return ""
+	case "tabs":
+		return sentence(idx, l, "\t")
+	}
+	fatal("unknown sentence class", cls)
+	return ""
+}
+
+func poolSeedArgs(seed int64, cls string, v int) (string, string) {
+	r := newRng(seed, fmt.Sprintf("pool/seed/%s/%d", cls, v))
+	switch cls {
+	case "ascii":
+		return sentence(indicesOf(r.bytes(16)), 2, " "), []string{"", "TREZOR"}[v%2]
+	case "jp":
+		return sentence(indicesOf(r.bytes(24)), 5, "　"), "㍍ガバヴァぱばぐゞちぢ十人十色"
+	case "compat":
+		return compatStrings[r.intn(len(compatStrings))], reorderStrings[r.intn(len(reorderStrings))]
+	case "long":
+		return strOfLen(r, 300, false), strOfLen(r, 200, true)
+	}
+	fatal("unknown seed class", cls)
+	return "", ""
+}
+
+func runAbstractStep(st pstep, seed int64) {
+	switch st.Op {
+	case "ent":
+		id := fmt.Sprintf("ent/%s/%d/%d", st.Cls, st.Lang, st.Var)
+		ent := poolEntropy(seed, st.Cls, st.Var)
+		keep := append([]byte(nil), ent...)
+		recByEntropy(ent, st.Lang, Event{"argid": id})
+		emit(Event{"op": "Buf", "before": ints(keep), "after": ints(ent)})
+	case "chk":
+		src := st.Lang
+		if st.Src != nil {
+			src = *st.Src
+		}
+		id := fmt.Sprintf("chk/%s/%d/%d/%d", st.Cls, src, st.Lang, st.Var)
+		recCheck(poolSentence(seed, st.Cls, src, st.Var), st.Lang, Event{"argid": id})
+	case "seed":
+		id := fmt.Sprintf("seed/%s/%d", st.Cls, st.Var)
+		m, p := poolSeedArgs(seed, st.Cls, st.Var)
+		recToSeed(m, p, st.Var%2 == 0, Event{"argid": id})
+	case "str":
+		recString(st.N, Event{"argid": fmt.Sprintf("str/%d", st.N)})
+	default:
+		fatal("prog: unknown step", st.Op)
+	}
+	if observeMaps {
+		mapLens()
+	}
+}
